@@ -396,6 +396,31 @@ theorem Returns.unpack2_bind {ext : Ext} {env : Env} {x y : String} {e : Expr} {
       | [_], hs => exact ⟨env, Runs.seq_stop (runs_intro 0 fun k _ => by simp [exec, he, hs, bindAll]) (by intro e; simp)⟩
       | _ :: _ :: _ :: _, hs => exact ⟨env, Runs.seq_stop (runs_intro 0 fun k _ => by simp [exec, he, hs, bindAll]) (by intro e; simp)⟩
 
+/-- what `a, b, c = v` needs of `v` -/
+def unpack3 (v : Val) : M (Val × Val × Val) :=
+  match seqOf v with
+  | some [a, b, c] => .ok (a, b, c)
+  | some _ => .error .valueError
+  | none => .error (.internal "unsupported: unpacking a non-sequence")
+
+theorem Returns.unpack3_bind {ext : Ext} {env : Env} {x y z : String} {e : Expr} {rest : Stmt} {f : Val × Val × Val → M Val} (r : M Val)
+    (he : evalExpr ext env e = r) (h : ∀ a b c, Returns ext rest (setVar (setVar (setVar env x a) y b) z c) (f (a, b, c))) :
+    Returns ext (.seq (.unpack [x, y, z] e) rest) env (r >>= fun v => unpack3 v >>= f) := by
+  cases r with
+  | error err => exact ⟨env, Runs.seq_stop (Runs.unpack_err he) (by intro e; simp)⟩
+  | ok v =>
+    simp only [bind, Except.bind, unpack3]
+    cases hs : seqOf v with
+    | none =>
+      refine ⟨env, Runs.seq_stop (runs_intro 0 fun k _ => by simp [exec, he, hs]) (by intro e; simp)⟩
+    | some l =>
+      match l, hs with
+      | [a, b, c], hs => exact Returns.seq_norm (Runs.unpack he hs (by simp [bindAll])) (h a b c)
+      | [], hs => exact ⟨env, Runs.seq_stop (runs_intro 0 fun k _ => by simp [exec, he, hs, bindAll]) (by intro e; simp)⟩
+      | [_], hs => exact ⟨env, Runs.seq_stop (runs_intro 0 fun k _ => by simp [exec, he, hs, bindAll]) (by intro e; simp)⟩
+      | [_, _], hs => exact ⟨env, Runs.seq_stop (runs_intro 0 fun k _ => by simp [exec, he, hs, bindAll]) (by intro e; simp)⟩
+      | _ :: _ :: _ :: _ :: _, hs => exact ⟨env, Runs.seq_stop (runs_intro 0 fun k _ => by simp [exec, he, hs, bindAll]) (by intro e; simp)⟩
+
 theorem Returns.ret_of {ext : Ext} {env : Env} {e : Expr} (r : M Val) (he : evalExpr ext env e = r) : Returns ext (.ret e) env r := by
   cases r with
   | error err => exact ⟨env, Runs.ret_err he⟩
